@@ -15,7 +15,7 @@ def main():
     checks = []
     for pid in ALL:
         cls = reg.get(pid)
-        if cls is None or not getattr(cls, "claimed", True):
+        if cls is None or not getattr(cls, "claimed", False):
             continue
         checks.append({
             "property_id": pid,
